@@ -53,6 +53,12 @@ CLAIMED["C17"] = {
     "note": "TLC has no IEEE arithmetic: digits are computed by the specification only for exactly representable decimal values; that an arbitrary double's digits are correctly rounded/shortest is checked through round trips and CPython as trusted base; ASCII input only.",
     "technique": "TLA+ scanner-vs-declarative grammar equivalence model-checked by TLC; TLA+ digit-string definitions of printf/repr/hex text; exhaustive TLC-generated strings and cells replayed into Rust; CPython cross-validation",
 }
+CLAIMED["C05"] = {
+    "text": "The hand-written lexer is a TLA+ state machine (Lexer.tla: position, at_begin_of_line, nesting, indentation stack, pending queue; Step = one iteration of inner_next's loop, Pop = delivering a token) over a complete partition of characters into ~60 classes. TLC checks on every text <= 4/5 characters of five class alphabets (layout, operators, numbers, strings/prefixes, Unicode) and both lexer configurations: ranges in bounds / on character boundaries / ordered, gaps only whitespace-comments-joins, spelling against an independent operator table and lexeme shapes, longest match, INDENT/DEDENT balance and placement, NEWLINE only outside brackets, progress (LexerMC.tla). Every finished run (token list or error kind and offset) is replayed on the real Lexer in the default and full-lexer builds; corpus files and seeded random layouts are lexed with the hook on and every Lexer::next event (token or error plus nesting, indentation depth, at_begin_of_line, queue length, location) is validated by TLC against the machine (LexerTrace.tla).",
+    "design_ref": "DESIGN.md section 6 C05",
+    "note": "Characters of one class are indistinguishable to the lexer by construction of the partition; XID/emoji tables are parameters sampled through class members; numeric values of literals are C06's subject.",
+    "technique": "TLA+ state machine of the lexer model-checked by TLC against declarative token definitions; TLC-generated runs replayed into Rust; TLC trace validation of hook-recorded lexer events",
+}
 NOT_YET = {}
 
 def main():
